@@ -52,7 +52,7 @@ T = {
  'C16': ('machine-checked proof in Coq (cache invariants under arbitrary interleavings: exact, bounded, failed loads not stored, get = load; $N rewriting of replace() = XPath reading under a model of Go template expansion) + correspondence check (sequential histories through the hook), race-detector runs, regexp oracles',
          'Theorems for any key/value type, load function, capacity, thread count and schedule; sequential histories exhaustive for capacities 0..3 x keys x length <= 4 (6) and random for 0..5; matches/replace compared with Go regexp directly.',
          'Go regexp is a parameter of the model (Go-side oracle: direct regexp calls and an independent implementation of the XPath replacement reading); locks are modelled as atomic sections; Go template expansion is modelled from its documentation'),
- 'C17': ('machine-checked proof in Coq (the parser fails wherever an operand/closer is required and missing: after operators, slashes, brackets, parentheses, commas, @, axis::, unclosed literals, trailing input; unknown functions/axes, bad arity, variables are build errors) + correspondence check over damage classes x positions',
+ 'C17': ('machine-checked proof in Coq (the parser fails wherever an operand/closer is required and missing: after operators, slashes, brackets, parentheses, commas, @, axis::, unclosed literals, trailing input; unknown functions/axes, bad arity, variables are build errors; function names, arity guards and axis names regenerated from build.go on every run and proved equal to those of the model for every argument count) + correspondence check over damage classes x positions and every function x 0..6 arguments',
          'Every damaged variant must be rejected by the implementation and the model must agree.',
          'rejection is proved per construct relative to the parser state at the damage; the whole-string statement per damage class is decided by the correspondence'),
 }
